@@ -26,6 +26,9 @@ inductive Outcome (α : Type) where
 mutual
 inductive Tree where
   | nil
+  /-- a typed nil pointer `(*kind)(nil)` stored in an interface-typed field or slice element: not
+      a nil interface (`!= nil` holds), calling Accept on it runs the method with a nil receiver -/
+  | tnil (kind : String)
   | node (kind : String) (strs : List (String × Bytes)) (kids : Kids)
 inductive Kids where
   | none
@@ -49,6 +52,7 @@ mutual
 /-- the `VisitSymbol` calls made by `t.Accept(visitor)`, in order -/
 def visit (T : Table) : Tree → List Bytes
   | .nil => []
+  | .tnil _ => []
   | .node k strs kids =>
     match T.lookup k with
     | none => []
@@ -61,27 +65,43 @@ end
 
 /- ------------------------------------------------------------------------- nil dereferences -/
 
+/-- `(*K)(nil).Accept(visitor)`: a value receiver is dereferenced by the call itself; a body under
+    `if recv != nil` does nothing; otherwise every statement that reads a field of the receiver
+    (`VisitSymbol(recv.f, …)`, `recv.f.Accept(…)`) dereferences nil, callbacks that only pass the
+    receiver on do not -/
+def nilRecvPanics (ki : KindInfo) : Bool :=
+  ki.valueRecv || (!ki.nilSafe && ki.steps.any fun
+    | .announce _ => true
+    | .forward _ _ => true
+    | _ => false)
+
 /-- Is a nil child in field `f` tolerated by `recv.f.Accept(visitor)`?  Yes if the call sits under
-    `if recv.f != nil`, or the static type of the field is `*K` and K's Accept starts with
-    `if recv != nil` (calling a method on a nil *K is fine in Go, on a nil interface it is not). -/
+    `if recv.f != nil`, or the static type of the field is `*K` and K's Accept does not touch a
+    nil receiver (`nilRecvPanics`: calling a method on a nil *K is fine in Go, on a nil interface
+    it is not). -/
 def tolerant (T : Table) (ki : KindInfo) (f : String) (guarded : Bool) : Bool :=
   guarded ||
     match ki.children.find? (fun c => c.field == f) with
     | some c =>
       match c.static with
-      | .ptr k => (match T.lookup k with | some kk => kk.nilSafe | none => false)
+      | .ptr k => (match T.lookup k with | some kk => !nilRecvPanics kk | none => false)
       | .val _ => true
       | .iface => false
     | none => false
 
 def Tree.isNil : Tree → Bool
   | .nil => true
+  | .tnil _ => false
   | .node _ _ _ => false
 
 mutual
 /-- does `t.Accept(visitor)` dereference nil somewhere? -/
 def panics (T : Table) : Tree → Bool
   | .nil => false
+  | .tnil k =>
+    match T.lookup k with
+    | none => false
+    | some ki => nilRecvPanics ki
   | .node k _ kids =>
     match T.lookup k with
     | none => false
@@ -132,15 +152,16 @@ def countField (f : String) : Kids → Nat
   | .cons g _ rest => (if g == f then 1 else 0) + countField f rest
 
 mutual
-/-- every node's kind is in the table, its string fields and child labels are fields the table
+/-- every node's kind is in the table, its string / enumeration fields and child labels are fields the table
     lists for that kind, and every non-slice child field occurs exactly once -/
 def shaped (T : Table) : Tree → Bool
   | .nil => true
+  | .tnil k => (T.lookup k).isSome
   | .node k strs kids =>
     match T.lookup k with
     | none => false
     | some ki =>
-      strs.all (fun p => ki.strFields.contains p.1) &&
+      strs.all (fun p => ki.strFields.contains p.1 || ki.enumFields.contains p.1) &&
       ki.children.all (fun c => c.many || countField c.field kids == 1) &&
       shapedKids T ki kids
 def shapedKids (T : Table) (ki : KindInfo) : Kids → Bool
@@ -162,6 +183,7 @@ mutual
     is announced by some node below it -/
 def namesCovered (T : Table) : Tree → Bool
   | .nil => true
+  | .tnil _ => true
   | .node k strs kids =>
     (match T.lookup k with
      | none => true
